@@ -613,6 +613,19 @@ def replay_native(repo, prop, full, vals):
 
 
 # ---------------------------------------------------------------------------
+REPO_CORE = ("execute", "optimize", "area", "state", "parse", "compile", "code")
+
+
+def is_engine_artifact(r):
+    m = re.search(r"\[in (.*)\]$", r.get("failed_desc") or "")
+    fn = (m.group(1) if m else "").lstrip("<")
+    if fn.startswith(("std::", "alloc::", "kani::", "__rust", "memcmp", "_RNv", "_RIN")):
+        return True
+    if fn.startswith("core::"):
+        return not fn.startswith(tuple("core::%s::" % x for x in REPO_CORE))
+    return False
+
+
 def load_known():
     known, fixed = [], []
     p = os.path.join(VERIF, "known_findings.txt")
@@ -737,7 +750,7 @@ def main():
 
         # ---- interpretation
         known, fixed = load_known()
-        violations, known_hits, broken, inconcl, warnings = [], [], [], [], []
+        violations, known_hits, broken, inconcl, warnings, artifacts = [], [], [], [], [], []
         os.makedirs(os.path.join(VERIF, "replays", prop), exist_ok=True)
         for h, r in zip(sel, results):
             v = r["verdict"]
@@ -778,6 +791,15 @@ def main():
                 if h.get("replay") == "none":
                     reproduced = True   # harness compares against a model only; documented per harness
                     r["replay"]["note"] = "not natively replayable (stubbed environment); reported on the solver's verdict"
+                if not reproduced and h["kind"] != "stretch" and is_engine_artifact(r):
+                    # A failure reported INSIDE the standard library's allocation / pointer / formatting
+                    # internals that does not replay natively is CBMC's imprecision on allocations whose
+                    # size became symbolic (DESIGN.md 2.5), not a statement about the code under test and
+                    # not an oracle bug: the grid point is "not covered".  (Real panics inside std replay.)
+                    artifacts.append(r["name"])
+                    inconcl.append(r["name"])
+                    r["detail"] = "engine artifact (non-replaying failure inside std internals): not covered"
+                    continue
                 if not reproduced and h["kind"] == "stretch":
                     # stretch harness at the edge of the engine's reach: a failure that does not replay
                     # (typically CBMC's handling of allocations whose size became symbolic) is "not covered"
@@ -804,6 +826,9 @@ def main():
                 else:
                     broken.append("%s: %s (%s)" % (r["name"], v, r.get("detail", "")))
 
+        n_must = sum(1 for h in sel if h["kind"] == "must")
+        if n_must and len(artifacts) * 10 > n_must * 3:
+            broken.append("%d of %d must harnesses ended in engine artifacts: too little was decided to call the run a pass" % (len(artifacts), n_must))
         write_evidence(prop, tier, seed, sel, results, violations, known_hits, broken, inconcl,
                        t_codegen, time.time() - t_start)
         for r, k in known_hits:
